@@ -37,16 +37,32 @@ RULE = ("random bounded models (gen_model, autonomous, 2-4 states, 1-4 parameter
         "states in random order; five loss classes with default / scalar / per-state / per-observation / full-matrix spread; "
         "weights in every accepted shape; target_param subsets in any order, target_state subsets for costIV; observations = "
         "reference trajectory (zero at truth) or perturbed positive / integer-valued data; plus a stream of integer weight "
-        "arguments in accepted and rejected shapes.  A loss case is non-trivial when the reference trajectory exists and at "
+        "arguments in accepted and rejected shapes.  MODEL VARIANTS (dealt by weight 12:3:4:1): the above; time-dependent rates "
+        "(periodic coefficients); right-hand sides at most first order in the states (c02.gen_affine_spec: linear chains, constant "
+        "inflow, constant explicit ODE terms, time-dependent coefficients, symmetric and all-zero Jacobians; events only / explicit ODE "
+        "terms only); one state.  BOUNDARY VALUES (10 % each): a parameter / an initial state that is exactly zero.  GRID VARIANTS "
+        "(weights 8:5:3:2:2:1:1:2): plain; replicate observation times (1-3 times repeated, also the first and the last, also three "
+        "times); the grid moved to t0 in {+-738000, +-1e4, 1e6, -123456.5, 1e7}; both; a horizon of t0 + 1e-3 / 1e-6 / 1e-9 of the "
+        "normal one; two times one ulp apart; an observation at t0; a one-point grid - forms the unchanged pygom refuses with an error "
+        "(IntegrationError for the zero-length first step, InputError from the constructor's trial integration, AssertionError for a "
+        "one-point grid with several observed states) are tagged `unsupported:*`, every accepted form is judged; the variant is part of "
+        "the violation signature (`:grid=repeated`).  REJECTED INPUTS (15 % of the cases): cost with theta one too long / short, costIV "
+        "likewise, constructors with an unknown state name, one observation row too many, x0 one too short - a silent acceptance is "
+        "a mismatch (`rejection-lost:*`), the next proper cost(theta) is judged (`cost-after-rejected-input`).  A loss case is non-trivial when the reference trajectory exists and at "
         "least one class was evaluated; a broadcast batch always is.  HISTORY cases (losshist.py): scripts of 6-14 operations on "
         "one or two loss objects - every ordered pair (e1 in cost / residual / costIV / residualIV, e2 in the eleven entry points "
         "cost residual diff_loss sensitivity gradient jac costIV residualIV diff_lossIV sensitivityIV jacIV) as 'e1 at (A,X); e2 at "
         "another theta and/or x0; e1 again; restore; e1 again; e1 with theta=None', random walks, the user re-assigning "
         "model.parameters between calls, two loss objects on one model object (the second built mid-script), two model instances "
         "with the same names, copy.deepcopy of a loss object; all four combinations of target_param / target_state; t0 != 0; "
-        "theta as list / tuple / ndarray / numpy scalars; y, x0, t, weights, spread as float or int containers.  A history case "
+        "theta as list / tuple / ndarray / numpy scalars; y, x0, t, weights, spread as float or int containers; 15 % of the scripts on a grid "
+        "with replicate times, 15 % on a grid moved far from the time origin.  A history case "
         "is non-trivial when at least two calls were judged against the reference for the values the object currently holds.")
-ASSUMPTIONS = ["scipy's integrators (lsoda at rtol = atol = 1e-10 inside pygom) approximate the flow: validated per case against an "
+ASSUMPTIONS = ["observation grids the unchanged pygom / scipy refuse with an error are outside the property's domain and only tagged: a first "
+               "observation at t0 and times one ulp apart (zero / sub-resolution step: lsoda 'illegal input'), a one-point grid with several "
+               "observed states, replicate times when the constructor's trial integrate2 restarts a dopri5 integrator on the zero-length step or "
+               "the right-hand side is identically zero; residual() turns a failed integration into an array of the largest float by design",
+               "scipy's integrators (lsoda at rtol = atol = 1e-10 inside pygom) approximate the flow: validated per case against an "
                "independent DOP853 reference at 1e-12; tolerance = 1e-6 x (sum of absolute per-entry loss terms) + the change of the reference "
                "cost when the prediction moves by 1e-7 x (1 + |yhat|) (losscommon.cost_tolerance)",
                "with non-unit weights the Poisson, Gamma and NegBinom costs ignore the weights (the code as it is; C07 restricts "
